@@ -269,3 +269,110 @@ pub(crate) fn force_enabled() -> bool {
 pub(crate) fn force_enabled() -> bool {
     false
 }
+
+// ---- KZG (C20) ----
+
+use crate::commitment_scheme::{CommitKey, OpeningKey, PublicParameters};
+use crate::commitment_scheme::VerifKzgProof as KzgProof;
+use crate::error::Error;
+use dusk_bls12_381::{G1Affine, G2Affine};
+
+/// A trimmed commit key with its opening key.
+pub struct Kzg {
+    ck: CommitKey,
+    vk: OpeningKey,
+}
+
+/// All G1 powers of the parameters, and (g, h, x_h) of the opening key.
+pub fn pp_points(
+    pp: &PublicParameters,
+) -> (Vec<G1Affine>, G1Affine, G2Affine, G2Affine) {
+    (
+        pp.commit_key.powers_of_g.clone(),
+        pp.opening_key.g,
+        pp.opening_key.h,
+        pp.opening_key.x_h,
+    )
+}
+
+pub fn kzg_trim(pp: &PublicParameters, degree: usize) -> Result<Kzg, Error> {
+    let (ck, vk) = pp.trim(degree)?;
+    Ok(Kzg { ck, vk })
+}
+
+impl Kzg {
+    pub fn key_degree(&self) -> usize {
+        self.ck.max_degree()
+    }
+
+    pub fn commit(&self, coeffs: &[BlsScalar]) -> Result<G1Affine, Error> {
+        let p = Polynomial::from_coefficients_vec(coeffs.to_vec());
+        self.ck.commit(&p).map(|c| c.0)
+    }
+
+    /// `batch_check` on (point, witness commitment, claimed value, polynomial
+    /// commitment) tuples with a transcript labelled `label`.
+    pub fn batch_check(
+        &self,
+        items: &[(BlsScalar, G1Affine, BlsScalar, G1Affine)],
+        label: &'static [u8],
+    ) -> Result<(), Error> {
+        let points: Vec<BlsScalar> = items.iter().map(|i| i.0).collect();
+        let proofs: Vec<KzgProof> = items
+            .iter()
+            .map(|i| KzgProof {
+                commitment_to_witness: Commitment(i.1),
+                evaluated_point: i.2,
+                commitment_to_polynomial: Commitment(i.3),
+            })
+            .collect();
+        let mut transcript = merlin::Transcript::new(label);
+        self.vk.batch_check(&points, &proofs, &mut transcript)
+    }
+
+    /// `batch_check` with a different number of points and proofs.
+    pub fn batch_check_mismatched(
+        &self,
+        points: &[BlsScalar],
+        n_proofs: usize,
+    ) -> Result<(), Error> {
+        let proofs: Vec<KzgProof> = (0..n_proofs)
+            .map(|_| KzgProof {
+                commitment_to_witness: Commitment::default(),
+                evaluated_point: BlsScalar::zero(),
+                commitment_to_polynomial: Commitment::default(),
+            })
+            .collect();
+        let mut transcript = merlin::Transcript::new(b"mismatch");
+        self.vk.batch_check(points, &proofs, &mut transcript)
+    }
+}
+
+pub fn aggregate_witness(
+    polys: &[Vec<BlsScalar>],
+    point: BlsScalar,
+    v: BlsScalar,
+) -> Vec<BlsScalar> {
+    let ps: Vec<Polynomial> = polys
+        .iter()
+        .map(|p| Polynomial::from_coefficients_vec(p.clone()))
+        .collect();
+    let refs: Vec<&Polynomial> = ps.iter().collect();
+    CommitKey::compute_aggregate_witness(&refs, &point, &v).to_vec()
+}
+
+/// `AggregateProof::flatten`: (combined evaluation, combined commitment).
+pub fn flatten(
+    witness: G1Affine,
+    parts: &[(BlsScalar, G1Affine)],
+    v: BlsScalar,
+) -> (BlsScalar, G1Affine) {
+    let mut agg = crate::commitment_scheme::AggregateProof::with_witness(
+        Commitment(witness),
+    );
+    for (e, c) in parts {
+        agg.add_part((*e, Commitment(*c)));
+    }
+    let p = agg.flatten(&v);
+    (p.evaluated_point, p.commitment_to_polynomial.0)
+}
